@@ -3,14 +3,19 @@ package main
 import (
 	"bytes"
 	"fmt"
+	"io"
+	"net"
 	"net/http"
 	"net/http/httptest"
+	"runtime"
 	"strings"
 	"sync"
 	"sync/atomic"
+	"time"
 
 	"github.com/safing/portbase/api"
 	"github.com/safing/portbase/config"
+	"github.com/safing/portbase/database"
 	_ "github.com/safing/portbase/database/dbmodule" // the api module depends on the database module
 	"github.com/safing/portbase/database/record"
 	"github.com/safing/portbase/modules"
@@ -25,6 +30,23 @@ type apiRecord struct {
 	record.Base
 	sync.Mutex
 	Msg string
+}
+
+// sharedRecord is handed out by a RecordFunc endpoint again and again (like a module's
+// status record); marshalling it runs the panicking function on demand.
+type sharedRecord struct {
+	record.Base
+	sync.Mutex
+	Msg string
+	Hot *hotField
+}
+
+type hotField struct{ aw *apiWorld }
+
+// MarshalJSON is called while api.MarshalRecord holds the record lock.
+func (h *hotField) MarshalJSON() ([]byte, error) {
+	h.aw.subjectFn("api-record-marshal")
+	return []byte(`"marshalled"`), nil
 }
 
 type apiWorld struct {
@@ -73,6 +95,22 @@ func runAPIChild(sp caseSpec, dir string) {
 		w.harnessProblem("SetAuthenticator: %s", err)
 	}
 
+	// real server path: a free port chosen here (the listen address must be known)
+	listenAddr := ""
+	if sp.Via == "server" {
+		l, err := net.Listen("tcp", "127.0.0.1:0")
+		if err != nil {
+			w.harnessProblem("no free port: %s", err)
+		}
+		listenAddr = l.Addr().String()
+		_ = l.Close()
+		api.SetDefaultAPIListenAddress(listenAddr)
+	}
+	shared := &sharedRecord{Msg: okBody}
+	shared.Hot = &hotField{aw: aw}
+	shared.SetKey("verif:shared-record")
+	shared.CreateMeta()
+
 	var blockedStarted atomic.Int32
 	late := func(wr http.ResponseWriter) {
 		if sp.Late {
@@ -101,6 +139,7 @@ func runAPIChild(sp caseSpec, dir string) {
 				r.CreateMeta()
 				return r, nil
 			}},
+			{Path: "verif/shared-record", RecordFunc: func(ar *api.Request) (record.Record, error) { return shared, nil }},
 			{Path: "verif/handlerfunc", HandlerFunc: func(wr http.ResponseWriter, r *http.Request) {
 				late(wr)
 				aw.subjectFn("api-handlerfunc")
@@ -154,16 +193,12 @@ func runAPIChild(sp caseSpec, dir string) {
 		"api-action": "/api/v1/verif/action", "api-data": "/api/v1/verif/data", "api-struct": "/api/v1/verif/struct",
 		"api-record": "/api/v1/verif/record", "api-handlerfunc": "/api/v1/verif/handlerfunc",
 		"api-raw-wrapped": "/verif-raw/wrapped", "api-raw-plain": "/verif-raw/plain",
+		"api-record-marshal": "/api/v1/verif/shared-record",
 	}[sp.Kind]
 	healthyPaths := []string{"/api/v1/verif/ok", "/api/v1/verif/ok-data", "/verif-raw/ok"}
 
 	// do: one request through the main handler. A panic that comes out of ServeHTTP was
 	// not contained by portbase (a real net/http server would swallow it silently).
-	type resp struct {
-		code    int
-		body    string
-		escaped any
-	}
 	do := func(method, p string) (rs resp) {
 		var body *bytes.Reader
 		if method == http.MethodPost {
@@ -185,9 +220,75 @@ func runAPIChild(sp caseSpec, dir string) {
 		return rs
 	}
 
+	// doVia: the panicking request takes the path of the case.
+	client := &http.Client{Timeout: 90 * time.Second}
+	bridge := database.NewInterface(&database.Options{Local: true, Internal: true})
+	doVia := func(method, p string) (rs resp) {
+		switch sp.Via {
+		case "server":
+			var body io.Reader
+			if method == http.MethodPost {
+				body = bytes.NewReader([]byte(`{"verif":"input"}`))
+			}
+			req, err := http.NewRequest(method, "http://"+listenAddr+p, body)
+			if err != nil {
+				w.harnessProblem("request: %s", err)
+			}
+			res, err := client.Do(req)
+			if err != nil {
+				rs.code, rs.body = 0, "no HTTP response: "+err.Error()
+				return rs
+			}
+			b, _ := io.ReadAll(res.Body)
+			_ = res.Body.Close()
+			rs.code, rs.body = res.StatusCode, string(b)
+			return rs
+		case "bridge":
+			// database interface -> injected "api" database -> callAPI -> main handler,
+			// on the caller's goroutine
+			key := "api:" + strings.TrimPrefix(p, "/api/v1/")
+			func() {
+				defer func() {
+					if r := recover(); r != nil {
+						rs.escaped = r
+					}
+				}()
+				rec, err := bridge.Get(key)
+				switch {
+				case err == nil:
+					rs.code = 200
+					if br, ok := rec.(*api.EndpointBridgeResponse); ok {
+						rs.body = br.Body
+					} else {
+						rs.body = fmt.Sprintf("%T %s", rec, okBody)
+					}
+				case strings.Contains(err.Error(), "bridged api call failed"):
+					rs.code, rs.body = 500, err.Error()
+				default:
+					rs.body = err.Error()
+					_, _ = fmt.Sscanf(err.Error()[strings.LastIndex(err.Error(), " ")+1:], "%d", &rs.code)
+				}
+			}()
+			return rs
+		}
+		return do(method, p)
+	}
+	if sp.Via == "server" {
+		// the listener comes up asynchronously (service worker of the api module)
+		if !waitFor(waitBegin, func() bool {
+			c, err := net.DialTimeout("tcp", listenAddr, time.Second)
+			if err == nil {
+				_ = c.Close()
+			}
+			return err == nil
+		}) {
+			w.harnessProblem("the API server does not accept connections on %s", listenAddr)
+		}
+	}
+
 	// warm-up: a healthy request is served (otherwise the world is not set up)
-	if rs := do(http.MethodGet, healthyPaths[0]); rs.code != 200 || !strings.Contains(rs.body, okBody) {
-		w.harnessProblem("healthy endpoint not served before the panic: %d %q", rs.code, trunc(rs.body, 200))
+	if rs := doVia(http.MethodGet, healthyPaths[0]); rs.escaped != nil || rs.code != 200 || !strings.Contains(rs.body, okBody) {
+		w.harnessProblem("healthy endpoint not served before the panic (via %s): %d %q", sp.Via, rs.code, trunc(rs.body, 200))
 	}
 	// Idle accounting of the api module, known by construction: the "http server
 	// manager" service worker and the "http endpoint" worker it runs (start-up work such
@@ -230,20 +331,25 @@ func runAPIChild(sp caseSpec, dir string) {
 	taskOK := func(s string) bool { return s == "api request" }
 	for occ := 1; occ <= sp.Repeat; occ++ {
 		w.log.Rec("call", "driver", sp.Method+" "+path, nil)
-		rs := do(sp.Method, path)
-		w.log.Rec("ret", "driver", sp.Method+" "+path, map[string]any{"status": rs.code, "escaped": rs.escaped != nil})
+		rs := doVia(sp.Method, path)
+		w.log.Rec("ret", "driver", sp.Method+" "+path, map[string]any{"status": rs.code, "escaped": rs.escaped != nil, "via": sp.Via})
 		w.fact("panic_response_status", rs.code)
 		if int(aw.entered.Load()) < occ {
 			w.harnessProblem("the request did not reach the panicking function: %d %q", rs.code, trunc(rs.body, 200))
 		}
 		w.check("api-escaped", sp.Kind, sp.Value, rs.escaped == nil,
-			fmt.Sprintf("the panic (%s) left the API main handler's ServeHTTP instead of being contained", typeOf(rs.escaped)), nil)
+			fmt.Sprintf("the panic (%s) left the API main handler's ServeHTTP instead of being contained and hit the calling goroutine (request path: %s)", typeOf(rs.escaped), sp.Via), nil)
 		if rs.escaped != nil {
 			continue
 		}
 		if !sp.Late {
 			w.check("api-status", sp.Kind, sp.Value, rs.code == http.StatusInternalServerError,
-				fmt.Sprintf("the request whose handler panicked was answered with status %d, not 500 (body %q)", rs.code, trunc(rs.body, 120)), nil)
+				fmt.Sprintf("the request whose handler panicked was answered with status %d, not 500 (request path %s; %q)", rs.code, sp.Via, trunc(rs.body, 120)), nil)
+		}
+		if sp.Kind == "api-record-marshal" {
+			if !aw.checkRecordLock(shared, func() resp { return do(sp.Method, path) }, s1) {
+				break // witness complete; further panics would only leave the lock behind again
+			}
 		}
 		w.checkReported(sp.Kind, aw.val, "api", taskOK, nil)
 		// the request ran inside RunWorker: the api module's counters are back
@@ -274,4 +380,62 @@ func runAPIChild(sp caseSpec, dir string) {
 
 	w.shutdownAndCheck(sp.Kind, sp.Value, false)
 	w.finish()
+}
+
+type resp struct {
+	code    int
+	body    string
+	escaped any
+}
+
+// checkRecordLock: the panic happened while the handler held the lock of the shared
+// record. Once the request has returned nobody holds that lock; a healthy request for
+// the same record is answered.
+func (aw *apiWorld) checkRecordLock(shared *sharedRecord, again func() resp, prev snap) bool {
+	w := aw.world
+	sp := w.spec
+	if shared.TryLock() {
+		shared.Unlock()
+		w.check("api-record-left-locked", sp.Kind, sp.Value, true, "", nil)
+		return true
+	}
+	w.check("api-record-left-locked", sp.Kind, sp.Value, false,
+		"the request whose record marshalling panicked has returned (500, reported), but the record it served is still locked: nobody will ever unlock it", nil)
+	// the structural consequence: a healthy request for the same record hangs inside
+	// RunWorker("http request") and the api module's worker count stays up
+	done := make(chan resp, 1)
+	go func() { done <- again() }()
+	blocked := ""
+	hung := waitFor(20*time.Second, func() bool {
+		select {
+		case r := <-done:
+			done <- r
+			return true
+		default:
+		}
+		buf := make([]byte, 2<<20)
+		buf = buf[:runtime.Stack(buf, true)]
+		for _, g := range strings.Split(string(buf), "\n\n") {
+			if strings.Contains(g, "api.MarshalRecord") && strings.Contains(g, "sync.(*Mutex).Lock") {
+				blocked = trunc(g, 1200)
+				return true
+			}
+		}
+		return false
+	})
+	now := w.snap()
+	if hung && blocked != "" {
+		w.check("api-hang", sp.Kind, sp.Value, false,
+			fmt.Sprintf("the next healthy request for the same record is blocked on the record lock inside the API handler; api module accounting %+v (before the panicking request %+v): the module cannot be stopped any more", now, prev),
+			map[string]any{"blocked_goroutine": blocked})
+	}
+	// release it so that the case can go on and the process can end; the endpoint
+	// behaves from now on (the unlock orders this write before the blocked request)
+	aw.panics = 0
+	shared.Unlock()
+	select {
+	case <-done:
+	case <-time.After(20 * time.Second):
+	}
+	return false
 }
